@@ -1685,6 +1685,14 @@ class ServerClientConnection(ConnectionBase):
         self.version = 1
 
     def _recvClientHello(self, data):
+        if self.session_key_bytes is not None:
+            # the handshake of this connection is already under way or
+            # complete. a second hello - even one sent by the peer itself
+            # inside the session - must not replace the key, the token
+            # or the status of the connection
+            self.log.warning("received client hello on a connection that has a key")
+            return
+
         msg = Serializable.loadb(data)
 
         # TODO: API to expose setting protocol version
